@@ -5,6 +5,24 @@ checks = {
  "C01": dict(level="exploration", technique="differential runtime monitor: byte-equality oracle over corpus + seeded comment mutations, 5 entry points",
    text="Runs the real decorate/restore/print pipeline through all five public entry points on every gofmt-canonical file of the toolchain source tree (quick: stratified sample) and on seeded comment/blank-line mutations of them, comparing the printed bytes with the input. Holds only on the inputs executed; witnesses are reduced and classified by dst-independent syntactic predicates so known findings never mask a new root cause.",
    note="trusts go/format (go1.23.5) as the definition of gofmt-canonical; corpus = GOROOT/src + /repo; generated inputs on which gofmt is not idempotent are inconclusive", ref="5/C01"),
+ "C03": dict(level="exploration", technique="differential runtime monitor: go/scanner token + comment streams of dst output vs go/format output over formatting transforms",
+   text="Pushes corpus files through nine formatting transforms (CRLF, BOM, spaces, no indentation, trailing whitespace, doubled/removed/whitespace-only blank lines) and raw comment insertions, and compares the scanner token sequence and the comment sequence of dst's output with gofmt's; root cause of a violation is established by re-running on the line-ending-normalised input.",
+   note="go/format is the reference; cases where gofmt itself rewrites comment text or is not idempotent are inconclusive", ref="5/C03"),
+ "C12": dict(level="exploration", technique="position-space monitor: reflection over every token.Pos of the restored ast, file-set disjointness, line table, rank-order isomorphism against a fresh parse with gofmt calibration",
+   text="Restores corpus trees (plain, densely decorated, import-managed, Extras) into a caller file set shared by sequences of up to 12 restores interleaved with caller AddFile calls; checks range, disjointness, line table, comment order and the order isomorphism between restored positions and a fresh parse of the printed text.",
+   note="comment/token inversions that gofmt reproduces on plain text, or that sit next to a //-comment (printer's pending-semicolon rule), are attributed to go/printer and only counted", ref="5/C12"),
+ "C14": dict(level="exploration", technique="differential execution against golang.org/x/tools astutil.Apply under seeded cursor-operation scripts",
+   text="Runs the same script of pre/post decisions and cursor edits through dstutil.Apply on the dst tree and astutil.Apply on the go/ast tree it was decorated from, and compares callback logs (with the cursor invariant evaluated at each callback), panic parity, returned roots and final tree shapes.",
+   note="astutil v0.1.12 is the reference model; callbacks on nil children are not compared", ref="5/C14"),
+ "C16": dict(level="exploration", technique="Go race detector (-race build) + sequential-equivalence and repetition monitors under hook-injected yields",
+   text="Runs rounds of 2-128 goroutines with private decorators/restorers and shared resolvers in a -race binary, perturbing the schedule at verifhook points outside the resolver lock; every race report is a violation, every concurrent result must equal the same call made alone, and repeated calls must give identical bytes. Evidence records the maximum number of goroutines simultaneously inside the shared resolver, cache hits/misses and distinct interleaving hashes.",
+   note="race detector reports only races that occur on the executed schedules", ref="5/C16"),
+ "C17": dict(level="fault_enumeration", technique="fault injection at the resolver interfaces (fail-at-k wrappers) with reflection snapshots and retry comparison",
+   text="For each file a clean run counts the resolver calls K; the k-th call is then made to fail for every k (all k <= 48, else 48 sampled), for the identifier resolver during decoration and the package-name resolver during import-managed restore, plus failures inside goast's cache, a genuinely missing name, and fail-fail-retry sequences.",
+   note="exhaustive over fault positions per file when K <= 48", ref="5/C17"),
+ "C20": dict(level="fault_enumeration", technique="strace system-call monitor around Package.SaveWithResolver in a child process + directory snapshots + resolver fault injection per file index",
+   text="Saves hand-built packages (1-10 files in 1-3 directories, unedited / edited / resolver failing at the first use of a path in file i) in a child under strace; the offline checker requires the set and order of modified paths between two marker syscalls to equal the recorded source paths up to the failing file, and snapshots decide content, modes and bystander integrity.",
+   note="strace -f sees all threads of the child; expected bytes are computed independently in the parent", ref="5/C20"),
  "C06": dict(level="exploration", technique="reflection monitors: deep-equality, storage-disjointness, scramble-and-recheck, print equality, shared-node rejection",
    text="Clones reflection-built instances of all 54 node types (every field non-zero) and densely decorated corpus trees; the monitor's own reflection walker checks structural equality, disjoint pointers/maps/backing arrays, that mutating either side leaves an independent snapshot of the other unchanged, that substituting clones prints identically, and that one node at two places makes RestoreFile panic while a clone prints.",
    note="FuncDecl.Type.Decs.Before/After and File.Unresolved are outside the statement (never consulted by printing / part of object resolution) and are cleared in the inputs", ref="5/C06"),
